@@ -49,7 +49,9 @@ impl<'a> CharacterString<'a> {
         assert(d.subrange(pre.len() as int + 1, d.len() as int) =~= self.bytes());
     }
 """)
-    c.contract(rel, CS_WF, 'parse', "", pre_body="\n        let ghost d0 = data@;\n        let ghost p0 = *position as int;\n")
+    c.contract(rel, CS_WF, 'parse', """
+        ensures r is Err ==> !(*old(position) < data.len() && *old(position) + 1 + data@[*old(position) as int] <= data.len()), // @C10:accepts-what-the-spec-decodes,C02:accepts-what-the-spec-decodes
+""", pre_body="\n        let ghost d0 = data@;\n        let ghost p0 = *position as int;\n")
     c.ghost(rel, CS_WF, 'parse', "Ok(Self {", """
         proof {
             assert(data@ == d0.subrange(p0 + 1, p0 + 1 + length));
